@@ -25,6 +25,11 @@ pub const SHARD_AWARE_PORT: u16 = 19042;
 pub const MS: u64 = 1_000_000;
 pub const SEC: u64 = 1_000_000_000;
 
+/// How much more a stalled connection's send buffer takes (None = no limit).
+fn draw_stall_budget() -> Option<usize> {
+    [None, None, Some(0), Some(4096), Some(65536)][tape::choose("io:stall_sndbuf", 5) as usize]
+}
+
 /// Kinds of injected faults, counted when they actually fire.
 #[derive(Debug, Clone, Copy, PartialEq, Eq, PartialOrd, Ord)]
 pub enum Fault {
@@ -148,6 +153,9 @@ pub struct Conn {
     /// The client dropped or shut down its stream.
     pub client_closed: bool,
     pub c2s_stalled: bool,
+    /// While stalled: how many more bytes the local send buffer takes before writes
+    /// block for good (the peer has stopped reading). None = no limit.
+    pub c2s_stall_budget: Option<usize>,
 
     // server -> client
     pub s2c_last_deliver: u64,
@@ -492,9 +500,11 @@ impl World {
                 }
                 CutKind::Stall => {
                     self.fault(Fault::Stall);
+                    let budget = draw_stall_budget();
                     let c = &mut self.conns[conn];
                     c.s2c_stalled = true;
                     c.c2s_stalled = true;
+                    c.c2s_stall_budget = budget;
                 }
             }
         }
@@ -533,10 +543,12 @@ impl World {
 
     /// Black-holes a connection in both directions from now on.
     pub fn stall_conn(&mut self, conn: ConnId) {
+        let budget = if self.conns[conn].s2c_stalled { None } else { draw_stall_budget() };
         let c = &mut self.conns[conn];
         if !c.s2c_stalled {
             c.s2c_stalled = true;
             c.c2s_stalled = true;
+            c.c2s_stall_budget = budget;
             self.fault(Fault::Stall);
             self.log(&format!("stall conn={conn}"));
         }
@@ -751,10 +763,27 @@ impl AsyncWrite for SimStream {
             return Poll::Ready(Ok(0));
         }
         let mut n = data.len();
+        if w.conns[conn].c2s_stalled {
+            if let Some(left) = w.conns[conn].c2s_stall_budget {
+                if left == 0 {
+                    // The peer does not read any more and the send buffer is full: the
+                    // write stays pending until the connection is given up.
+                    w.probe("write_blocked_on_stalled_peer");
+                    w.conns[conn].writer_waker = Some(cx.waker().clone());
+                    return Poll::Pending;
+                }
+                n = n.min(left);
+            }
+        }
         if n > 1 && w.net.chunk_permille > 0 && tape::chance("io:write_chunk", w.net.chunk_permille, 1000)
         {
             n = 1 + tape::choose("io:write_chunk_len", n as u64 - 1) as usize;
             w.fault(Fault::Chunk);
+        }
+        if w.conns[conn].c2s_stalled {
+            if let Some(left) = w.conns[conn].c2s_stall_budget {
+                w.conns[conn].c2s_stall_budget = Some(left - n.min(left));
+            }
         }
         w.client_wrote(conn, data[..n].to_vec());
         Poll::Ready(Ok(n))
@@ -893,6 +922,7 @@ async fn connect(
                 srv_rx: Vec::new(),
                 client_closed: false,
                 c2s_stalled: false,
+                c2s_stall_budget: None,
                 s2c_last_deliver: 0,
                 s2c_sent: 0,
                 s2c_delivered: 0,
